@@ -7,6 +7,7 @@ CONSTANTS
     DepOrders = "asc"
     WithMissing = TRUE
     WithAnti = FALSE
+    Profiles = "full"
     Bug = "none"
 INVARIANTS
     TypeOK RdependsMirrorsDepends SetEmptyAtExit NoGhostInGoodCase
